@@ -707,6 +707,23 @@ def one_transect(obs, rng, env, line, cls, spec):
                    'prepared data: depth and segment last; column k holds the values of the cell of segment k at every depth',
                    lambda: {'variable': name, 'dims': var.dims, 'out dims': out.dims, 'linear indexes': lin,
                             'got': out.values, 'want': wantv}, mech='prepared-data')
+    # ---- the same Transect asked again for an array of the same name and dimensions but other values (the next time slice,
+    #      the same field from another run): the answer follows the values it is given, not the ones it saw first
+    if env['tvars'] and chance(rng, 0.5):
+        name = env['tvars'][0]
+        var = model.variables[name]
+        other = ds[name] * 3 + 1
+        other.name = name
+        out2 = obs.call('prepare_data_array_for_transect (same name, other values)', transect.prepare_data_array_for_transect, other)
+        if not isinstance(out2, Failed):
+            obs.cls('prepared-again-with-other-values')
+            ddim = depth['dim']
+            axis = var.extra_dims.index(ddim)
+            values = numpy.moveaxis(var.typed(var.canon).astype('float64') * 3 + 1, axis, -2)
+            wantv = values[..., lin] if lin else values[..., :0]
+            obs.expect(nan_equal(numpy.asarray(out2.values, dtype='float64'), wantv),
+                       'a second array of the same name prepared on the same transect holds its own values',
+                       lambda: {'variable': name, 'got': out2.values, 'want': wantv}, mech='prepared-data-stale')
     if len(obs.samples) < 4 and len(segs) >= 3 and (len(obs.samples) < 2 or shared_len > 0):
         obs.sample({'convention': conv, 'grid': face.shape, 'path class': cls, 'path': line.wkt,
                     'segments (cell, start m, end m)': [(int(s.linear_index), round(s.start_distance, 1), round(s.end_distance, 1)) for s in segs[:8]],
